@@ -34,6 +34,7 @@ var (
 	oddNames = []string{"\u00b0C", "\u00b5s", "a\u00e9", "\u00e9\u00e9"}
 	predefNames  = []string{"p/one", "p/two", "p/three", "t/a", "ab"}
 	msgIDPool    = []uint16{1, 2, 3, 0xffff, 0xfffe}
+	advPoolMs    = []int64{1, 1000, 4000, 6000, 9999}
 	clientIDPool = []string{"cl", "c2", "nobody"}
 )
 
@@ -113,7 +114,11 @@ func genSession(t *rapid.T, o sessOpts) sessCase {
 			c.PreConnect++
 		}
 	}
-	sc.Steps = append(sc.Steps, connectSteps(sc.Cfg, c.ClientID, 60)...)
+	keepalive := uint16(60)
+	if o.control {
+		keepalive = 600 // time passes in these sessions
+	}
+	sc.Steps = append(sc.Steps, connectSteps(sc.Cfg, c.ClientID, keepalive)...)
 	n := rapid.IntRange(1, o.maxSteps).Draw(t, "nsteps")
 	var subMids []uint16
 	nextName := 0
@@ -139,7 +144,7 @@ func genSession(t *rapid.T, o sessOpts) sessCase {
 			kinds = append(kinds, "suback", "suback")
 		}
 		if o.control {
-			kinds = append(kinds, "unsubscribe", "pubrel", "pingreq", "backs")
+			kinds = append(kinds, "unsubscribe", "pubrel", "pingreq", "backs", "adv", "sleep-reconnect", "sub-reuse")
 		}
 		if o.smallIDSpace {
 			kinds = append(kinds, "register", "register-new", "register-new", "bpub-new")
@@ -222,6 +227,33 @@ func genSession(t *rapid.T, o sessOpts) sessCase {
 			}
 			p.MsgID = mid
 			sc.Steps = append(sc.Steps, gwgen.SN(p))
+		case "adv":
+			sc.Steps = append(sc.Steps, gwgen.Adv(rapid.SampledFrom(advPoolMs).Draw(t, "adv_ms")))
+		case "sleep-reconnect":
+			// the client sleeps and comes back with a CONNECT (not a PINGREQ): the gateway answers the
+			// CONNACK itself and pings the broker on its own account
+			sc.Steps = append(sc.Steps, gwgen.SN(gwgen.Disconnect(uint16(rapid.SampledFrom([]int{5, 60, 600}).Draw(t, "sleep_s")))))
+			if d := rapid.SampledFrom([]int64{0, 0, 1000, 4000}).Draw(t, "asleep_ms"); d > 0 {
+				sc.Steps = append(sc.Steps, gwgen.Adv(d))
+			}
+			sc.Steps = append(sc.Steps, gwgen.SN(gwgen.Connect(c.ClientID, keepalive, false, rapid.Bool().Draw(t, "clean"))))
+		case "sub-reuse":
+			// a SUBSCRIBE which the broker answers (grants or refuses), then the same message ID again
+			// for another SUBSCRIBE (it is free once the SUBACK has arrived), with time in between
+			for k := 0; k < 2; k++ {
+				sc.Steps = append(sc.Steps, gwgen.SN(gwgen.SubscribeName(rapid.SampledFrom(plainNames).Draw(t, "name"), byte(rapid.IntRange(0, 2).Draw(t, "qos")), mid)))
+				if k == 0 || rapid.IntRange(0, 3).Draw(t, "answer_second") > 0 {
+					if d := rapid.SampledFrom(advPoolMs).Draw(t, "wait_ms"); k == 1 || rapid.Bool().Draw(t, "slow_first_answer") {
+						sc.Steps = append(sc.Steps, gwgen.Adv(d))
+					}
+					code := rapid.SampledFrom([]byte{0, 1, 2, 0x80, 0x80, 0x80, 0xff}).Draw(t, "code")
+					sc.Steps = append(sc.Steps, gwgen.MQ(mqttref.Pkt{Type: mqttref.SUBACK, MsgID: mid, Codes: []byte{code}}))
+				}
+				if k == 0 {
+					sc.Steps = append(sc.Steps, gwgen.Adv(rapid.SampledFrom(advPoolMs).Draw(t, "gap_ms")))
+				}
+			}
+			subMids = append(subMids, mid)
 		case "pubrel":
 			sc.Steps = append(sc.Steps, gwgen.SN(snref.Pkt{Type: snref.PUBREL, MsgID: mid}))
 		case "pingreq":
@@ -657,8 +689,8 @@ func TestC02(t *testing.T) {
 func TestC03(t *testing.T) {
 	vf.Check(t, vf.Prop[sessCase]{
 		ID: "C03", Name: "control-packets-one-to-one", Bubble: true,
-		Rule: "connected session; SUBSCRIBE over all topic forms x requested QoS 0-2 x message IDs from a small pool; broker SUBACKs as script steps with return code drawn from {0,1,2,0x80} and reserved values {3,0x7f,0xff} (anything above 2 is a refusal) independently of the requested QoS; UNSUBSCRIBE (all forms), PUBREL, PINGREQ from the client; PUBREC/PUBCOMP/UNSUBACK/PINGRESP from the broker with arbitrary IDs. Non-trivial = a SUBACK whose granted QoS differs from the requested one, or a refusal, or a non-string topic form; distinct by script.",
-		Assumptions: []string{"the topic ID of a refused SUBACK is unconstrained", "a SUBACK is judged only if it answers a SUBSCRIBE of this session that is still pending (sent within RetryDelay and not yet answered)"},
+		Rule: "connected session; SUBSCRIBE over all topic forms x requested QoS 0-2 x message IDs from a small pool; broker SUBACKs as script steps with return code drawn from {0,1,2,0x80} and reserved values {3,0x7f,0xff} (anything above 2 is a refusal) independently of the requested QoS; UNSUBSCRIBE (all forms), PUBREL, PINGREQ from the client; PUBREC/PUBCOMP/UNSUBACK/PINGRESP from the broker with arbitrary IDs; time advances of 1 ms - 9.999 s between steps (RetryDelay 10 s), a message ID used again for a SUBSCRIBE after its SUBACK (granted or refused) with such gaps before and after, and sleep followed by a reconnecting CONNECT. Non-trivial = a SUBACK whose granted QoS differs from the requested one, or a refusal, or a non-string topic form; distinct by script.",
+		Assumptions: []string{"the topic ID of a refused SUBACK is unconstrained", "a SUBACK is judged only if it answers a SUBSCRIBE of this session that is still pending (the latest SUBSCRIBE with that message ID was sent less than RetryDelay ago and is not yet answered)", "a client which comes back from sleep with CONNECT gets one CONNACK and no PINGRESP (it sent no PINGREQ); while it is asleep nothing is judged"},
 		Gen: func(t *rapid.T) sessCase {
 			return genSession(t, sessOpts{scriptedSuback: true, control: true, maxSteps: 10})
 		},
@@ -669,7 +701,13 @@ func TestC03(t *testing.T) {
 func runC03(c sessCase) (r vf.Result) {
 	tr := gwsim.Run(c.Script)
 	k := newKnow(c)
-	pending := map[uint16]snref.Pkt{} // SUBSCRIBE forwarded and not yet answered, by message ID
+	type pend struct {
+		p       snref.Pkt
+		firstNs int64 // when it was sent
+	}
+	retry := int64(c.Script.Cfg.RetryDelayMs) * 1e6
+	pending := map[uint16]pend{} // SUBSCRIBE forwarded and not yet answered, by message ID
+	connects, asleep := 0, false
 	for i, st := range c.Script.Steps {
 		ev := stepEvents(tr, i)
 		if len(ev) == 0 {
@@ -726,14 +764,52 @@ func runC03(c sessCase) (r vf.Result) {
 				if m.Type != mqttref.SUBSCRIBE || m.MsgID != p.MsgID || len(m.Filters) != 1 || m.Filters[0] != filter || m.QoSs[0] != p.QoS {
 					r.Fail("subscribe-translation", "SUBSCRIBE %v translated to %v (want filter %q qos %d mid %d)", p, m, filter, p.QoS, p.MsgID)
 				}
-				pending[p.MsgID] = p
+				// a SUBSCRIBE may supersede an unanswered one with the same message ID (a retransmission,
+				// say): the gateway's patience counts from the latest one
+				np := pend{p: p, firstNs: first.Ns}
+				if old, ok := pending[p.MsgID]; ok && first.Ns < old.firstNs+retry {
+					r.Label("subscribe-supersedes-unanswered")
+				}
+				pending[p.MsgID] = np
+			}
+		case st.K == "sn" && st.SN.Type == snref.DISCONNECT && st.SN.Duration > 0:
+			asleep = true
+		case st.K == "sn" && st.SN.Type == snref.CONNECT:
+			connects++
+			if connects == 1 || !asleep {
+				break
+			}
+			asleep = false
+			r.Label("reconnect-out-of-sleep")
+			r.NonTrivial = true
+			// the gateway answers this CONNECT itself; the PINGRESP for its own PINGREQ to the broker is
+			// not the client's (PINGREQ/PINGRESP are one-to-one, and the client sent no PINGREQ)
+			nack := 0
+			for _, p := range gc {
+				switch p.Type {
+				case snref.CONNACK:
+					nack++
+				case snref.PINGRESP:
+					r.Fail("pingresp-without-pingreq", "the client came back from sleep with CONNECT and got a PINGRESP although it sent no PINGREQ\n%s", tr.Dump(25))
+				}
+			}
+			if !undec {
+				one("reconnect-connack", nack, "CONNACK for the CONNECT of a sleeping client")
 			}
 		case st.K == "mq" && st.MQ.Type == mqttref.SUBACK:
-			s, ok := pending[st.MQ.MsgID]
+			pe, ok := pending[st.MQ.MsgID]
 			if !ok {
 				break
 			}
 			delete(pending, st.MQ.MsgID)
+			if first.Ns >= pe.firstNs+retry {
+				r.Label("suback-after-retry-delay")
+				break // the gateway has given the exchange up
+			}
+			s := pe.p
+			if first.Ns > pe.firstNs {
+				r.Label("suback-after-a-while")
+			}
 			code := st.MQ.Codes[0]
 			if code != s.QoS {
 				r.NonTrivial = true
